@@ -58,7 +58,9 @@ var SortNorm = &sim.DumpOpts{SortTypes: map[string]bool{
 
 // guard runs f and converts a panic into (stack, true).
 func guard(f func()) (panicVal any, stack string) {
+	sim.Beat()
 	defer func() {
+		sim.Beat()
 		if r := recover(); r != nil {
 			panicVal = r
 			stack = string(debug.Stack())
